@@ -46,10 +46,21 @@ MANIFEST = dict(
          "starts at item p*per); page_count (total_page = ceil(n/per): least k with n <= k*per, closed form n/per + [n%per!=0]); "
          "pages_partition + page_item (for every list, page size >= 1 and page index: pages 0..count-1 concatenated are the "
          "list, all but the last full, each non-empty and <= per, pages beyond the count empty, item i of page p is item "
-         "p*per+i); page_in_range_key / page_in_range_op / page_in_range (FULL: current page < page count, or nothing "
-         "listed, is an invariant of EVERY operation and hence every history - key events in all arms of all four states, "
-         "select(n), the four jumps, start/cancel_selecting, commit, reset, and - since the F32 repair - the option / layout / "
-         "engine / dictionary calls made while a list is open; every opening / re-targeting starts at page 0); "
+         "p*per+i); page_in_range_op / page_in_range : page_in_range_full and open_list_on_a_page : open_list_on_a_page_full "
+         "(FULL since the FX1 repair - no 'or nothing listed': in every state reached by ANY history of valid operations from "
+         "a state satisfying C01's safety invariant SafeInv (a fresh editor does) under C01's EnvOK, EVERY open list of EVERY kind "
+         "lists at least one candidate, total_page answers, and the current page is STRICTLY below the page count - key events in "
+         "all arms of all four states incl. Down/Space cycling (PhraseSelector::next stops on a range with a phrase or on the one "
+         "it started from), j/k, select(n) incl. a symbol-table category (one without symbols closes the list), the four jumps "
+         "(next/prev/last only stop on a range with a phrase; jump_to_first re-initialises from the anchor, which the current "
+         "range contains inside its break points: init_from_anchor_nonempty), start/cancel_selecting, the simple engine's "
+         "single-word list, commit, reset, and the option / layout / engine / dictionary calls made while a list is open; "
+         "lemmas Proofs/EditorOpenList.lean (ListOk, SelWithin, per-arm lemmas), Proofs/PhraseSelHas.lean (next_has, "
+         "nextSelectionPoint_has, prevSelectionPoint_has, jumpToLast_has, init_within); non-vacuity example on C01's toy "
+         "environment); page_or_empty_key / page_or_empty_op / page_or_empty_anystate (the former page_in_range: 'current page < "
+         "page count OR nothing listed' from ANY state and for EVERY environment, no reachability hypothesis; every opening / "
+         "re-targeting starts at page 0); fx1_history_repaired (the former FX1 witness evaluated: grave on an empty symbol "
+         "table is ignored, nothing opened); choose_symbol now has the clause 'a category without symbols closes the list'; "
          "revalidate_in_range / reconfigured_list_in_range (after set_editor_options / set_syllable_editor / learn_phrase / "
          "unlearn_phrase a list that is still open is non-empty and its page strictly below the page count: the calls end with "
          "revalidate_selecting, which clamps the page and closes a list that became empty); f32_history_repaired, "
@@ -93,9 +104,11 @@ MANIFEST = dict(
          "chewing::editor::Editor; after every call every chewing_cand_* getter (TotalPage/CurrentPage/ChoicePerPage/TotalChoice, "
          "string_by_index over the whole list, the Enumerate/hasNext/String loop, list_has_next/prev) is compared with the twin's "
          "Rust getter and the statement is evaluated on the C answers (ceil, page below count, Enumerate = list from page*per on, "
-         "choose i on page p = item p*per+i, out-of-range rejected unchanged). Known finding FX1 (found there): over an EMPTY "
-         "symbol table (no symbols.dat) the symbol list is opened with 0 candidates / 0 pages - open_list_on_a_page_refuted; "
-         "page_in_range is the partial form (PageOk = page below count OR nothing listed).",
+         "choose i on page p = item p*per+i, out-of-range rejected unchanged). FX1 (found there, REPAIRED by fix: a symbol list without entries is not opened): over an EMPTY "
+         "symbol table (no symbols.dat) the symbol list used to be opened with 0 candidates / 0 pages; the class is gone from capi_props "
+         "and from the editor oracle (a recurrence is reported as new), contexts without symbols.dat and editor sessions without a symbol "
+         "table / with a category without symbols are still generated (#stat histories_in_a_context_with_an_empty_symbol_table, "
+         "c07_sessions_with_empty_symbol_table, c07_symbol_table_requests_without_a_table, c07_choices_of_a_category_without_symbols).",
     note="Trusted: Lean kernel (standard axioms), read-only snapshot hooks, harness + compiled model driver. The C functions "
          "chewing_cand_* are modelled by reading (thin wrappers over the Rust getters the correspondence drives) and compared "
          "getter by getter with the Rust getters of a lock-step twin editor by the capi_props run (sampled, not proved).",
